@@ -197,6 +197,13 @@ Definition spec_results (r : record) (pid : N) (ctx : bytes) (md : mbytes) : lis
   end.
 
 (* ---------------------------------------------------------------- *)
+(* A history of lookups on one cached record.  GetResults reads the record and writes
+   nothing, so the model of a history is the map of the model of one call over the calls:
+   the k-th answer depends on the record and on the k-th arguments only.               *)
+Definition run_calls (r : record) (pid : N) (calls : list (bytes * mbytes)) : list (res (list result)) :=
+  map (fun c : bytes * mbytes => get_results r pid (fst c) (snd c)) calls.
+
+(* ---------------------------------------------------------------- *)
 (* Case checker used by the generated case files.                    *)
 
 Definition mbytes_eqb (a b : mbytes) : bool := option_eqb bytes_eqb a b.   (* nil <> empty *)
